@@ -129,12 +129,12 @@ theorem connectionLost_clean (s : S) (c : Option Nat) (r : Option Bytes) (w : Op
   unfold connectionLost at h
   split at h
   · exact Or.inl h
-  · unfold reportClose markClosed cancelOnLost at h
+  · unfold reportClose unsentUnclean markClosed cancelOnLost at h
     by_cases hw : s.wasClean = true
     · exact Or.inr hw
     · left
       have hw' : s.wasClean = false := by simpa using hw
-      split at h <;> split at h <;> (try split at h) <;> simp_all [S.emit]
+      split at h <;> split at h <;> (try split at h) <;> (try split at h) <;> (try split at h) <;> simp_all [S.emit]
 
 /-- the invariant: `J`, and every clean report so far came with our close frame sent -/
 def K (s : S) : Prop := J s ∧ ∀ c r w, Out.onClose true c r w ∈ s.log → s.closeSent ≠ []
